@@ -11,4 +11,6 @@ def run(tier, seed):
         chk.notes.append("proved local clauses not built yet")
     from bounded import initial_explorer
     initial_explorer.run(chk, tier, seed)
+    from bounded import bdr_via_curve
+    bdr_via_curve.run(chk, tier, seed)
     return chk.finish()
